@@ -55,7 +55,7 @@ def strategy(tier):
 
 
 def budget(tier):
-    return 4000 if tier == "quick" else 150000
+    return 4000 if tier == "quick" else 40000
 
 
 def classify(case):
